@@ -926,7 +926,7 @@ fn run_subject(a: &Args, name: &str) {
         let mut codec = make(name);
         let trains = codec.trains();
         // a codec without a training step sees every payload on its own: other / superset sessions only repeat "same"
-        if !trains && s.mode != "same" && s.klass != "small3" {
+        if !trains && s.mode != "same" && !(s.klass == "small3" && s.mode == "superset") {
             continue;
         }
         let mode = if trains { s.mode } else { "self" };
@@ -981,6 +981,71 @@ fn run_subject(a: &Args, name: &str) {
         }
         let mut blob_id = 0u32;
         let mut roundtrips = 0u64;
+        // the exhaustive small-scope sessions (hundreds of tiny payloads under one model) are logged as batch events:
+        // one "roundtrips" event = the sequence encode(x_i); decode(blob_i, len x_i) for up to 400 payloads
+        let batched = alive && s.payloads.len() > 64;
+        if batched {
+            for chunk in s.payloads.chunks(400) {
+                let mut items = vec![];
+                for x in chunk {
+                    if x.len() > codec.max_len(a.thorough()) {
+                        st.skipped_payloads += 1;
+                        continue;
+                    }
+                    let nothing = digest(&[]);
+                    if !trains && (items.len() + si) % 8 == 0 {
+                        // self-training codec: the table an encode of x derives, for a rotating eighth of the batch
+                        if let Ok(evs) = guard(|| codec.mech_for(name, x)) {
+                            for e in evs {
+                                st.tables += 1;
+                                tr.ev(e);
+                            }
+                        }
+                    }
+                    match guard(|| codec.encode(x)) {
+                        Ok(Ok(blob)) => {
+                            blob_id += 1;
+                            st.encodes_ok += 1;
+                            st.bytes += x.len() as u64;
+                            st.decodes += 1;
+                            let (dok, y) = match guard(|| codec.decode(&blob, x.len())) {
+                                Ok(Ok(y)) => {
+                                    if !x.is_empty() {
+                                        roundtrips += 1;
+                                    }
+                                    (true, digest(&y))
+                                }
+                                Ok(Err(_)) => {
+                                    st.decode_errors += 1;
+                                    (false, nothing)
+                                }
+                                Err(_) => {
+                                    st.panics += 1;
+                                    (false, nothing)
+                                }
+                            };
+                            items.push(json!({"x":digest(x),"eok":true,"b":blob_id,"n":x.len(),"dok":dok,"y":y}));
+                        }
+                        Ok(Err(_)) => {
+                            st.encodes_refused += 1;
+                            items.push(json!({"x":digest(x),"eok":false,"b":0,"n":x.len(),"dok":false,"y":nothing}));
+                        }
+                        Err(_) => {
+                            // a panic inside encode is a refusal; the codec object is not trusted any more
+                            st.panics += 1;
+                            st.encodes_refused += 1;
+                            items.push(json!({"x":digest(x),"eok":false,"b":0,"n":x.len(),"dok":false,"y":nothing}));
+                            std::mem::forget(std::mem::replace(&mut codec, make(name)));
+                            let _ = guard(|| codec.train(&s.train));
+                        }
+                    }
+                }
+                tr.ev(json!({"op":"roundtrips","c":name,"items":items}));
+                tr.flush();
+            }
+            st.nontrivial += roundtrips;
+            continue;
+        }
         for x in &s.payloads {
             if !alive {
                 break;
